@@ -140,7 +140,7 @@ func RunH(t *testing.T, sc Script, o CaseOpts) (ex *Exec) {
 			if ex == nil {
 				panic(r)
 			}
-			ex.Viol = append(ex.Viol, Violation{Tags: "C08,C07", Step: ex.stepIdx, Msg: fmt.Sprintf("goroutines of the case outlived it: %v", r)})
+			ex.Viol = append(ex.Viol, Violation{Tags: "C08,C07,C09,C04,C19", Step: ex.stepIdx, Msg: fmt.Sprintf("server code blocks forever / goroutines of the case outlived it: %v", r)})
 		}
 	}()
 	noteCurrent(sc)
